@@ -734,6 +734,24 @@ func (u *Unit) dispatch(st *State, cs *callSite) []Value {
 				return u.inlineFunc(st, cs, fi)
 			}
 		}
+		// function literals handed to a callee known only by its contract are verified as separate
+		// units (the callee may call them any number of times)
+		for _, a := range cs.call.Args {
+			if lit, ok := ast.Unparen(a).(*ast.FuncLit); ok {
+				u.spawnLit(st, lit, "callback")
+			} else if id, ok := ast.Unparen(a).(*ast.Ident); ok {
+				// a local variable holding a literal of this function
+				if v, ok := u.top().info.ObjectOf(id).(*types.Var); ok {
+					if _, isFn := v.Type().Underlying().(*types.Signature); isFn {
+						if fv, ok := st.vars[v]; ok && len(fv.L) == 1 {
+							if cl, ok := u.closures[fv.term().S]; ok {
+								u.spawnLit(st, cl.lit, "callback")
+							}
+						}
+					}
+				}
+			}
+		}
 		return u.applyContract(st, cs, fc)
 	}
 	if fi, ok := u.eng.funcs[origin]; ok {
